@@ -45,7 +45,9 @@ type c19Op struct {
 }
 
 type c19Case struct {
-	Mode      string  `json:"mode"` // seq | conc | gate
+	Kind      string  `json:"kind,omitempty"`
+	HBMs      int     `json:"hb_ms,omitempty"`
+	Mode      string  `json:"mode"` // seq | conc | gate | hb
 	Ops       []c19Op `json:"ops,omitempty"`
 	TimeoutMs int     `json:"timeout_ms"`
 	Pubs      int     `json:"pubs,omitempty"`
@@ -61,33 +63,58 @@ var c19Server int64
 type c19Env struct {
 	t       *tr.Writer
 	broker  *push.Broker
-	server  mock.Server
+	stop    func()
 	proxies map[string]*c19Proxy
+	clients map[string]*core.Client
 	m       int64
 }
 
 func newC19Env(t *tr.Writer, timeout time.Duration) *c19Env {
+	return newC19EnvOn(t, "mock", timeout, 0)
+}
+
+// newC19EnvOn: the broker behind the given transport (every client id has its own client, hence over tcp
+// its own connection), with the given heart beat (0 = none).
+func newC19EnvOn(t *tr.Writer, kind string, timeout, heartbeat time.Duration) *c19Env {
 	service := core.NewService()
 	b := push.NewBroker(service)
 	b.Timeout = timeout
-	b.HeartBeat = 0
-	addr := fmt.Sprintf("c19-%d", atomic.AddInt64(&c19Server, 1))
-	server := mock.Server{Address: addr}
-	if err := service.Bind(server); err != nil {
-		panic(err)
+	b.HeartBeat = heartbeat
+	e := &c19Env{t: t, broker: b, proxies: map[string]*c19Proxy{}, clients: map[string]*core.Client{}}
+	url := ""
+	if kind == "mock" {
+		addr := fmt.Sprintf("c19-%d", atomic.AddInt64(&c19Server, 1))
+		server := mock.Server{Address: addr}
+		if err := service.Bind(server); err != nil {
+			panic(err)
+		}
+		e.stop = func() { server.Close() }
+		url = "mock://" + addr
+	} else {
+		env, err := rpcenv.Start(kind, service, false)
+		if err != nil {
+			panic(err)
+		}
+		e.stop = env.Close
+		url = env.URL
 	}
-	e := &c19Env{t: t, broker: b, server: server, proxies: map[string]*c19Proxy{}}
 	for _, id := range append(append([]string(nil), c19IDs...), "p1", "p2", "p3") {
-		client := core.NewClient("mock://" + addr)
+		client := core.NewClient(url)
 		client.RequestHeaders().Set("id", id)
 		p := &c19Proxy{}
 		client.UseService(p)
 		e.proxies[id] = p
+		e.clients[id] = client
 	}
 	return e
 }
 
-func (e *c19Env) close() { e.server.Close() }
+func (e *c19Env) close() {
+	for _, c := range e.clients {
+		c.Abort()
+	}
+	e.stop()
+}
 
 func c19Int(v interface{}) int {
 	switch x := v.(type) {
@@ -201,6 +228,10 @@ func (e *c19Env) subOp(op c19Op) {
 func c19Run(t *tr.Writer, id int, c c19Case) {
 	Watch(id, tr.Rec{"mode": c.Mode}, c)
 	t.Reset(id, tr.Rec{"mode": c.Mode, "scenario": c.Scenario, "input": c})
+	if c.Mode == "hb" {
+		c19HeartBeat(t, c)
+		return
+	}
 	e := newC19Env(t, time.Duration(c.TimeoutMs)*time.Millisecond)
 	defer e.close()
 	switch c.Mode {
@@ -463,6 +494,20 @@ func runC19(a Args) tr.Summary {
 		}()
 	}
 	wg.Wait()
+	// heart beat scenarios (real time: the heart beat is 400 ms, the client polls within 40 ms)
+	for _, kind := range []string{"tcp", "mock"} {
+		for _, sc := range []string{"pubclose", "direct", "lapse"} {
+			id++
+			nontrivial++
+			c := c19Case{Mode: "hb", Kind: kind, Scenario: sc, TimeoutMs: 40, HBMs: 400, Seed: a.Seed*131 + int64(id)}
+			if sc == "lapse" {
+				c.HBMs = 60
+			}
+			sub := tr.New(fmt.Sprintf("%s.real%d", a.Out, id))
+			c19Run(sub, id, c)
+			sub.Close()
+		}
+	}
 	// gate-forced orders run alone (the gate is process-global)
 	for _, sc := range []string{"popped-then-timeout", "taken-then-timeout", "timeout-then-publish", "empty-then-publish"} {
 		for _, to := range []int{6, 12} {
@@ -483,4 +528,57 @@ func runC19(a Args) tr.Summary {
 	sum.Nontrivial = nontrivial
 	sum.Extra = tr.Rec{"exhaustive_len": exLen, "exhaustive_cases": exhaustive, "random_cases": nRandom, "concurrent_cases": nConc, "gate_cases": 8}
 	return sum
+}
+
+// heart beat: after a delivery the broker takes a client offline (drops its subscriptions and what is
+// queued for it) unless the client polls again within Broker.HeartBeat. A client that does poll in
+// time must lose nothing, whatever else happens - in particular whatever becomes of the publishers.
+//
+//	pubclose  a publish wakes the waiting poll; a second message is accepted; the first publisher
+//	          disconnects; the client polls again well within the heart beat
+//	direct    a poll finds a queued message at once; further messages are published and polled
+//	          within the heart beat, by publishers that come and go
+//	lapse     the client lets the heart beat pass: from then on the broker may have taken it offline
+//	          (the monitor's `lapse` step), and the remaining run is judged accordingly
+func c19HeartBeat(t *tr.Writer, c c19Case) {
+	hb := time.Duration(c.HBMs) * time.Millisecond
+	e := newC19EnvOn(t, c.Kind, time.Duration(c.TimeoutMs)*time.Millisecond, hb)
+	defer e.close()
+	rng := tr.NewRng(c.Seed)
+	e.subOp(c19Op{Op: "sub", ID: "a", Topic: "t"})
+	pubs := []string{"p1", "p2", "p3"}
+	switch c.Scenario {
+	case "pubclose":
+		for round := 0; round < 3; round++ {
+			x, y := pubs[round%3], pubs[(round+1)%3]
+			pollDone := make(chan struct{})
+			go func() { defer close(pollDone); e.poll("a") }()
+			time.Sleep(time.Duration(c.TimeoutMs) * time.Millisecond / 4)
+			e.publish(x, c19Op{Op: "uni", Topic: "t", ID: "a"}) // wakes the poll; the heart beat starts
+			<-pollDone
+			e.publish(y, c19Op{Op: "uni", Topic: "t", ID: "a"}) // queued
+			e.clients[x].Abort()                                // x's connection goes away
+			time.Sleep(hb / 10)
+			e.poll("a") // well within the heart beat
+		}
+	case "direct":
+		for round := 0; round < 4; round++ {
+			x := pubs[rng.Intn(3)]
+			e.publish(x, c19Op{Op: "uni", Topic: "t", ID: "a"})
+			if rng.Intn(2) == 0 {
+				e.clients[x].Abort()
+			}
+			e.poll("a") // finds the message at once
+			time.Sleep(time.Duration(rng.Intn(int(hb/8) + 1)))
+		}
+	case "lapse":
+		e.publish("p1", c19Op{Op: "uni", Topic: "t", ID: "a"})
+		e.poll("a")
+		time.Sleep(hb * 3)
+		t.Emit(tr.Rec{"ev": "lapse", "id": "a"})
+		e.publish("p2", c19Op{Op: "uni", Topic: "t", ID: "a"})
+		e.poll("a")
+	}
+	time.Sleep(hb / 10)
+	e.drain("a")
 }
